@@ -719,7 +719,7 @@ class Solver(object):
         if len(output_at_times) > 0:
             tdiff = output_at_times - self.t
 
-            if numpy.any(numpy.abs(tdiff) < self._epsilon):
+            if numpy.any(numpy.abs(tdiff) <= self._epsilon):
                 dump = True
 
             self._limit_dt_to_output_times()
@@ -744,7 +744,7 @@ class Solver(object):
                 indices = numpy.where(timestep_too_big)[0]
                 index = indices[0]
                 output_time = output_at_times[index]
-                if ((abs(output_time - self.t) < self._epsilon) and
+                if ((abs(output_time - self.t) <= self._epsilon) and
                    (len(indices) > 1)):
                     index = indices[1]
                     output_time = output_at_times[index]
